@@ -42,7 +42,12 @@ func runC07(c *core.Ctx) {
 		srv := pool.Servers[wk]
 		r := c.Rng("tuple", i)
 		layout := []string{"2006/01/02", "2006/01/02", "2006-01-02", "02.01.2006", "Jan 2 2006"}[r.Intn(5)]
-		w := newWorld(r, worldOpts{Exact: i%2 == 0, Sorted: r.Intn(2) == 0, MinDays: 1, Hostile: i%5 == 0, Notes: true, Layout: layout})
+		wo := worldOpts{Exact: i%2 == 0, Sorted: r.Intn(2) == 0, MinDays: 1, Hostile: i%5 == 0, Notes: true, Layout: layout}
+		if i%4 == 2 {
+			// names longer than any column of any report (recipes, elements, foods the book does not know)
+			wo.Names = gen.NameOpts{Unicode: true, Spaces: true, Slash: true, Punct: ".,'()&+-_", MinLen: 1, MaxLen: 45}
+		}
+		w := newWorld(r, wo)
 		srv.Write(w.Files())
 		today := gen.Date{Y: 2021, M: 3, D: 1}
 		pre := []string{"--no-color", "-d", "food.yaml", "-l", "log.yaml", "--today", today.Format(w.Layout)}
@@ -681,6 +686,50 @@ func runC07(c *core.Ctx) {
 				viol("R9b "+rr.name+" "+flag+" vs plain reg", bad, args, res, regArgs, regRes)
 			} else if len(days) > 0 {
 				ok("R9b")
+			}
+		}
+
+		// R9c: --shorten abbreviates labels; the amounts of every food row, ingredient row and totals row are those of
+		// the plain register, in the same order (names that were cut are compared by their amounts only)
+		{
+			rr := regRenderers[r.Intn(2)]
+			res, args := runCmd(true, append(append([]string{}, rr.args...), "--shorten")...)
+			if failed {
+				return
+			}
+			days, err := rr.parse(res.Out)
+			amounts := func(d obs.RegDay) string {
+				var sb strings.Builder
+				for _, f := range d.Foods {
+					var ing []string
+					for _, x := range f.Ingredients {
+						ing = append(ing, x.Raw)
+					}
+					sort.Strings(ing)
+					fmt.Fprintf(&sb, " %s %v\n", f.Raw, ing)
+				}
+				for _, t := range d.Totals {
+					fmt.Fprintf(&sb, " T %v\n", t.Raw)
+				}
+				return sb.String()
+			}
+			bad := ""
+			if err != nil {
+				bad = "unparsable: " + err.Error()
+			} else if len(days) != len(regDays) {
+				bad = fmt.Sprintf("%d days vs %d", len(days), len(regDays))
+			} else {
+				for k := range days {
+					if s1, s2 := amounts(days[k]), amounts(regDays[k]); s1 != s2 {
+						bad = fmt.Sprintf("day %d differs:\n%s\nvs the plain register:\n%s", k, s1, s2)
+						break
+					}
+				}
+			}
+			if bad != "" {
+				viol("R9c "+rr.name+" --shorten vs plain reg", bad, args, res, regArgs, regRes)
+			} else if len(days) > 0 {
+				ok("R9c")
 			}
 		}
 
